@@ -1,7 +1,6 @@
 package harness
 
 import (
-	"bytes"
 	"fmt"
 	"sort"
 	"strings"
@@ -248,7 +247,7 @@ func checkC36(r *Result) []Violation {
 			if connack(c) == nil {
 				st = "pre-connack"
 			}
-			out = append(out, viol("C36", "connection-open-after-close", fmt.Sprintf("conn %d (%s) is still open when Server.Close returned (seq %d)", c.Idx, st, ret), ret, "state", st))
+			out = append(out, viol("C36", "connection-open-after-close", fmt.Sprintf("conn %d (%s) is still open when Server.Close returned (seq %d)", c.Idx, st, ret), ret, "state", st, "handler", handlerAt(c, r.Ex.opSeq[closeOp], ret)))
 		}
 		// MQTT 5 established clients get DISCONNECT 0x8B first
 		if ca := connack(c); ca != nil && ca.P.ReasonCode == 0 && c.Ver == 5 && ca.Seq < r.Ex.opSeq[closeOp] && (pc < 0 || pc > ret) {
@@ -271,7 +270,11 @@ func checkC36(r *Result) []Violation {
 	// no handler finishes after Close returned (Close waits for all of them)
 	for _, e := range r.H.Evs {
 		if e.Seq > ret && e.Kind == "hook" && e.Str == "disconnect" {
-			out = append(out, viol("C36", "handler-finished-after-close", fmt.Sprintf("a connection handler (client %q) was still running after Server.Close returned", e.Str2), e.Seq))
+			h := "unknown"
+			if e.Conn >= 0 && e.Conn < len(ex.Conns) {
+				h = handlerAt(ex.Conns[e.Conn], r.Ex.opSeq[closeOp], ret)
+			}
+			out = append(out, viol("C36", "handler-finished-after-close", fmt.Sprintf("a connection handler (client %q) was still running after Server.Close returned", e.Str2), e.Seq, "handler", h))
 			break
 		}
 	}
@@ -284,6 +287,20 @@ func checkC36(r *Result) []Violation {
 		}
 	}
 	return out
+}
+
+// handlerAt says when the broker's handler of connection c began to run (its first read) relative to the
+// shutdown: before Close was called, while Close was running, or not before Close returned.
+func handlerAt(c *Conn, closeCalled, closeReturned int) string {
+	c.mu.Lock()
+	defer c.mu.Unlock()
+	switch {
+	case !c.readStarted || c.firstReadSeq > closeReturned:
+		return "not-started"
+	case c.firstReadSeq < closeCalled:
+		return "started-before-close-call"
+	}
+	return "started-during-close"
 }
 
 func relevantC36(r *Result) (bool, []string) {
@@ -459,6 +476,7 @@ func genC34(t *Tape) *Plan {
 	k.Filters = []string{"t", "#", "u"}
 	k.Ops = 22
 	k.WConnect, k.WSub, k.WUnsub, k.WPub, k.WDisc, k.WDrop, k.WStall, k.WFailWrite, k.WAck = 1, 3, 0, 12, 0, 0, 1, 1, 2
+	k.WPing = 2 // direct replies (PINGRESP, like PUBACK / SUBACK) interleaved with queued publishes
 	k.CleanPct = 100
 	k.V5Pct = 70
 	k.PadMax = 60
@@ -480,6 +498,36 @@ func genC34(t *Tape) *Plan {
 	cfg.ArmFocus = []string{"WritePacket", "WriteLoop", "publishToClient", "flushOutbuf"}
 	g.Connect(0)
 	g.Subscribe(0)
+	if t.Draw("c34.shape", 3) == 0 {
+		// slow-consumer skeleton: the subscriber (subscribed to everything) stops reading, publishes pile up behind
+		// the blocked write, the subscriber sends requests that are answered directly (PINGRESP / PUBACK), then it
+		// reads again; the random tail follows. The operations run one after the other; what the handlers do once
+		// the subscriber reads again is decided by the schedule tape.
+		first := len(g.plan.Ops)
+		for i := range g.plan.Ops {
+			if g.plan.Ops[i].Kind == "subscribe" && g.plan.Ops[i].Pkt != nil && len(g.plan.Ops[i].Pkt.Filters) > 0 {
+				g.plan.Ops[i].Pkt.Filters[0].Filter = "#"
+			}
+			g.plan.Ops[i].Concurrent = false
+		}
+		g.Connect(1)
+		g.add(Op{Kind: "stall", Slot: 0})
+		for i, n := 0, 2+t.Draw("c34.burst", 3); i < n; i++ {
+			g.Publish(1)
+		}
+		for i, n := 0, 1+t.Draw("c34.direct", 2); i < n; i++ {
+			if t.Draw("c34.directkind", 2) == 0 {
+				g.add(Op{Kind: "ping", Slot: 0, Pkt: &refcodec.Packet{Type: refcodec.PINGREQ}})
+			} else {
+				g.Publish(0)
+			}
+		}
+		g.add(Op{Kind: "unstall", Slot: 0})
+		g.add(Op{Kind: "advance", Ms: 10})
+		for i := first; i < len(g.plan.Ops); i++ {
+			g.plan.Ops[i].Concurrent = false
+		}
+	}
 	p := g.Run()
 	// let every stalled writer go and come to rest
 	for s := 0; s < k.Slots; s++ {
@@ -491,57 +539,56 @@ func genC34(t *Tape) *Plan {
 
 func checkC34(r *Result) []Violation {
 	var out []Violation
-	// at the final quiescent point (no stall active): everything reported as sent is on the wire
-	lastQ := -1
+	// at every quiescent point at which the connection's writer is not held by an injected stall: everything
+	// reported as sent (OnPacketSent) is on the wire
+	if r.Stats.Truncated || r.Ex.Deadlock != nil {
+		return nil
+	}
+	n := len(r.Ex.Conns)
+	wire := make([]int64, n)
+	reported := make([]int64, n)
+	stalled := make([]bool, n)
+	closed := make([]bool, n)
+	writeFault := make([]bool, n)
+	flagged := make([]bool, n)
 	for _, e := range r.H.Evs {
 		if e.Kind == "teardown" {
 			break
 		}
-		if e.Kind == "quiesce" {
-			lastQ = e.Seq
-		}
-	}
-	if lastQ < 0 || r.Stats.Truncated || r.Ex.Deadlock != nil {
-		return nil
-	}
-	for _, c := range r.Ex.Conns {
-		// bytes on the wire and bytes reported through OnPacketSent up to lastQ
-		var wire int64
-		for _, e := range r.H.Evs {
-			if e.Seq > lastQ {
-				break
-			}
-			if e.Kind == "out" && e.Conn == c.Idx {
-				wire += e.N
+		if e.Conn >= 0 && e.Conn < n {
+			switch {
+			case e.Kind == "hook" && e.Str == "sent":
+				reported[e.Conn]++ // packets, not bytes: OnPacketSent receives an empty slice for directly written packets
+			case e.Kind == "stall-on":
+				stalled[e.Conn] = true
+			case e.Kind == "stall-off":
+				stalled[e.Conn] = false
+			case e.Kind == "close":
+				closed[e.Conn] = true
+			case e.Kind == "fault" && (e.Str == "net.write_error" || e.Str == "net.short_write"):
+				writeFault[e.Conn] = true
 			}
 		}
-		var reported int64
-		for _, e := range r.H.Evs {
-			if e.Seq > lastQ {
-				break
-			}
-			if e.Kind == "hook" && e.Str == "sent" && e.Conn == c.Idx {
-				reported += e.N
-			}
+		if e.Kind != "quiesce" {
+			continue
 		}
-		writeFault := false
-		for _, e := range r.H.Evs {
-			if e.Kind == "fault" && e.Conn == c.Idx && (e.Str == "net.write_error" || e.Str == "net.short_write") {
-				writeFault = true
+		for _, c := range r.Ex.Conns {
+			i := c.Idx
+			if flagged[i] || stalled[i] || closed[i] {
+				continue
 			}
-		}
-		bc := brokerCloseSeq(r.H, c.Idx)
-		pc := peerCloseSeq(r.H, c.Idx)
-		closed := (bc >= 0 && bc <= lastQ) || (pc >= 0 && pc <= lastQ)
-		if reported > wire && !closed {
-			out = append(out, viol("C34", "reported-sent-but-not-written", fmt.Sprintf("conn %d at quiescence (seq %d): hooks were told %d bytes were sent, %d bytes are on the wire (%d stranded)", c.Idx, lastQ, reported, wire, reported-wire), lastQ,
-				"write_fault", fmt.Sprint(writeFault), "maxpkt", fmt.Sprint(connectPkt(c, r) != nil && connectPkt(c, r).Props.Has(refcodec.PMaximumPacketSize))))
-		}
-		if !closed && !writeFault && bytes.Equal(c.hookSent, nil) == false {
-			c.mu.Lock()
-			prefixOK := len(c.out) >= 0
-			c.mu.Unlock()
-			_ = prefixOK
+			wire[i] = 0
+			for _, pr := range c.Pkts {
+				if pr.Seq <= e.Seq {
+					wire[i]++ // packets whose last byte had been written to the connection by now
+				}
+			}
+			if reported[i] <= wire[i] {
+				continue
+			}
+			flagged[i] = true
+			out = append(out, viol("C34", "reported-sent-but-not-written", fmt.Sprintf("conn %d at quiescence (seq %d): hooks were told %d packets were sent, %d packets are on the wire (%d stranded in a buffer)", c.Idx, e.Seq, reported[i], wire[i], reported[i]-wire[i]), e.Seq,
+				"write_fault", fmt.Sprint(writeFault[i]), "maxpkt", fmt.Sprint(connectPkt(c, r) != nil && connectPkt(c, r).Props.Has(refcodec.PMaximumPacketSize))))
 		}
 	}
 	// every must-delivery that did not happen has a drop reported to the hooks
